@@ -10,6 +10,7 @@ import (
 	"verif/engine/build"
 	"verif/engine/props/c01"
 	"verif/engine/props/c06"
+	"verif/engine/props/c07"
 	"verif/engine/props/c13"
 	"verif/engine/props/c19"
 	"verif/engine/props/c20"
@@ -24,6 +25,7 @@ var checks = map[string]struct {
 }{
 	"C01": {"translation_validation", c01.Run},
 	"C06": {"model_checking", c06.Run},
+	"C07": {"model_checking", c07.Run},
 	"C13": {"model_checking", c13.Run},
 	"C19": {"model_checking", c19.Run},
 	"C20": {"model_checking", c20.Run},
